@@ -1581,6 +1581,11 @@ func (s *ImmuStore) fetchVLog(vLogID byte) (appendable.Appendable, error) {
 	s.vLogsCond.L.Lock()
 	defer s.vLogsCond.L.Unlock()
 
+	if _, ok := s.vLogs[vLogID-1]; !ok {
+		// the id comes from the (unauthenticated) offset of a tx entry
+		return nil, fmt.Errorf("%w: invalid vLogID %d", ErrCorruptedData, vLogID)
+	}
+
 	for s.vLogs[vLogID-1].unlockedRef == nil {
 		s.vLogsCond.Wait()
 	}
